@@ -71,16 +71,13 @@ def data_unjson(val):
 
 
 def coq_bytes(data):
-    ''' An octet string as a Coq term; long strings as a chain of short
-    [unhex] literals (one long literal costs quadratic time in [be]). '''
+    ''' An octet string as a Coq term of type [list N] (N_scope is open in the
+    case files).  A plain list literal: [unhex] costs quadratic time in the
+    length of the literal, a long chain of [++] quadratic elaboration time. '''
     data = bytes(data)
     if len(data) == 0:
         return '(@nil N)'
-    if len(data) <= 8:
-        return '[' + '; '.join(str(b) for b in data) + ']'
-    if len(data) <= 32:
-        return '(unhex %d 0x%s)' % (len(data), data.hex())
-    return '(' + ' ++ '.join('unhex %d 0x%s' % (len(data[i:i + 32]), data[i:i + 32].hex()) for i in range(0, len(data), 32)) + ')'
+    return '[' + '; '.join(str(b) for b in data) + ']'
 
 
 def c_data(val):
@@ -520,6 +517,27 @@ class RxObs(object):
             self.tail = bytes(self.tail)
 
 
+def obs_export(obs):
+    return (obs.frames, obs.trace, obs.raised, obs.occupancy, obs.tail)
+
+
+def obs_load(data):
+    obs = RxObs.__new__(RxObs)
+    (obs.frames, obs.trace, obs.raised, obs.occupancy, obs.tail) = data
+    return obs
+
+
+def short_worker(stream):
+    ''' Every cut of one short stream through the real recv_raw (runs in a
+    worker process; observations only, verdicts are taken by the parent). '''
+    out = []
+    size = len(stream)
+    for mask in range(1 << (size - 1)):
+        lens = cut_lens(mask, size)
+        out.append(obs_export(RxObs(split_stream(stream, lens), 'wrap')))
+    return out
+
+
 def cut_lens(mask, size):
     ''' Read sizes for the cut whose boundary set is the bitmask (bit i = cut after octet i+1). '''
     lens = []
@@ -838,8 +856,9 @@ class Runner(object):
         return False
 
     # ---- framing, one (stream, cut) --------------------------------------------------
-    def framing_case(self, stream, lens, mode, replay, verdict=True):
-        obs = RxObs(split_stream(stream, lens), mode)
+    def framing_case(self, stream, lens, mode, replay, verdict=True, obs=None):
+        if obs is None:
+            obs = RxObs(split_stream(stream, lens), mode)
         bad = oracle_framing(stream, lens, obs) if verdict else None
         if bad is not None:
             self.chk.fail('C07 / framing / ' + bad[0], 'stream %s cut %s: %s' % (stream.hex()[:100], lens[:24], bad[1]), replay)
@@ -857,16 +876,16 @@ class ModelJobs(object):
     def __init__(self, chk):
         from concurrent.futures import ThreadPoolExecutor
         self.chk = chk
-        self.pool = ThreadPoolExecutor(max_workers=12)
+        self.pool = ThreadPoolExecutor(max_workers=16)
 
-    def submit(self, name, terms, func, chunk=250):
+    def submit(self, name, terms, func, chunk=250, defs=''):
         terms = list(terms)
         nshards = max(1, -(-len(terms) // chunk))
         # spread neighbouring (similarly expensive) cases over the shards
         order = sorted(range(len(terms)), key=lambda idx: (idx % nshards, idx))
 
         def work():
-            res = self.chk.coq_eval(name, ['Model.TcpclMsg'], [terms[idx] for idx in order], func, chunk, 900, PRELUDE)
+            res = self.chk.coq_eval(name, ['Model.TcpclMsg'], [terms[idx] for idx in order], func, chunk, 900, PRELUDE + defs)
             out = [None] * len(terms)
             for (idx, val) in zip(order, res):
                 out[idx] = val
@@ -913,7 +932,7 @@ def run_codec(chk, run, jobs, corpus, sizes):
         else:
             small.append((pos, '(%s, %s)' % (c_frame_msg(frame), coq_bytes(tail))))
     item_cases = [(pos, frame, items) for (pos, (frame, items, _t)) in enumerate(cases) if frame[0] in ('seg', 'init')]
-    fut_small = jobs.submit('codec', [term for (_p, term) in small], 'codec_small')
+    fut_small = jobs.submit('codec', [term for (_p, term) in small], 'codec_small', chunk=64)
     fut_big = jobs.submit('codecbig', [term for (_p, term) in big], 'codec_big', chunk=4)
     fut_xf = jobs.submit('extsx', [coq_bytes(f[3]) for (_p, f, _i) in item_cases if f[0] == 'seg'], 'exts_xfer')
     fut_se = jobs.submit('extss', [coq_bytes(f[5]) for (_p, f, _i) in item_cases if f[0] == 'init'], 'exts_sess')
@@ -987,7 +1006,7 @@ def _cum(lens):
     return out
 
 
-def run_framing_short(chk, run, jobs, sizes):
+def run_framing_short(chk, run, jobs, sizes, pool):
     """ Every cut of every short stream on the implementation; the model on the
     uncut stream and on a sample of the cuts. """
     rng = chk.rng
@@ -1005,14 +1024,16 @@ def run_framing_short(chk, run, jobs, sizes):
             model_cases.append((sidx, mask, cut_lens(mask, size)))
     fut = jobs.submit('short', ['(%s, %s)' % (coq_bytes(streams[sidx][1]), c_lens(lens)) for (sidx, _m, lens) in model_cases],
                       'rx_brief', chunk=80)
+    pending = pool.map_async(short_worker, [stream for (_t, stream) in streams], chunksize=1)
+    yield
     all_obs = {}
-    for (sidx, (tag, stream)) in enumerate(streams):
+    for ((sidx, (tag, stream)), observed) in zip(enumerate(streams), pending.get()):
         size = len(stream)
         (_f, ends, _s) = spec_stream(stream)
         for mask in range(1 << (size - 1)):
             lens = cut_lens(mask, size)
             replay = dict(suite='framing', stream=stream.hex(), lens=lens, mode='wrap')
-            (obs, _bad) = run.framing_case(stream, lens, 'wrap', replay)
+            (obs, _bad) = run.framing_case(stream, lens, 'wrap', replay, obs=obs_load(observed[mask]))
             splits = any((pos not in ends) for pos in _cum(lens)[:-1])
             chk.case(('cut', stream, mask), nontrivial=splits,
                      sample=dict(suite='framing', stream=stream.hex(), reads=lens, frames_acted_on=[o.hex() for (o, _f2, _v) in obs.frames],
@@ -1024,7 +1045,6 @@ def run_framing_short(chk, run, jobs, sizes):
     chk.coverage['short_cuts_all'] = len(all_obs)
     sizes['framing_short_all_cuts'] = len(all_obs)
     sizes['framing_short_model_evaluated'] = len(model_cases)
-    yield
     uncut = {}
     for ((sidx, mask, lens), val) in zip(model_cases, fut.result()):
         (mtrace, mframes, mtail) = canon_model(val)
@@ -1073,13 +1093,16 @@ def compare_streams(run, suite, jobs_list, results):
 def run_framing_long(chk, run, jobs, sizes):
     specs = long_streams(chk)
     plan = []
-    for (tag, frames) in specs:
+    futs = []
+    for (sidx, (tag, frames)) in enumerate(specs):
         (parts, flat) = stream_parts(frames)
         (size, cuts) = directed_cuts(chk, frames)
         assert size == len(flat)
         for (ctag, lens) in cuts:
             plan.append((tag, frames, parts, flat, ctag, lens))
-    fut = jobs.submit('long', ['(%s, %s)' % (c_parts(parts), c_lens(lens)) for (_t, _f, parts, _fl, _c, lens) in plan], 'rx_brief', chunk=40)
+        # the stream is defined once per job, its cuts are the cases
+        futs.append(jobs.submit('long%d' % sidx, ['(the_stream, %s)' % c_lens(lens) for (_c, lens) in cuts], 'rx_brief', chunk=1000,
+                                defs='Definition the_stream : bytes := %s.\n' % c_parts(parts)))
     done = []
     for (tag, frames, parts, flat, ctag, lens) in plan:
         (_f, ends, _s) = spec_stream(flat)
@@ -1097,7 +1120,10 @@ def run_framing_long(chk, run, jobs, sizes):
             chk.count('long_msg_type', KIND_NAMES_OF([frame], 0))
     sizes['framing_long_directed'] = len(done)
     yield
-    compare_streams(run, 'framing-long', done, fut.result())
+    results = []
+    for fut in futs:
+        results += fut.result()
+    compare_streams(run, 'framing-long', done, results)
     chk.obligation('correspondence:framing-long', not run.mismatch.get('framing-long'), '; '.join(run.mismatch.get('framing-long', [])[:3]))
 
 
@@ -1107,6 +1133,7 @@ def run_framing_real(chk, run, jobs, sizes):
     SESS_TERM), observed by a recording wrapper that delegates. """
     rng = chk.rng
     plan = []
+    futs = []
     for idx in range(4 if chk.quick() else 16):
         xid = rng.choice([0, 1, 7, 2 ** 32])
         data = [bytes(rng.randrange(256) for _ in range(rng.choice([0, 1, 9, 40]))) for _ in range(3)]
@@ -1123,11 +1150,11 @@ def run_framing_real(chk, run, jobs, sizes):
                   (('term', 0, rng.choice([0, 1, 3])), [])]
         (parts, flat) = stream_parts(frames)
         (size, cuts) = directed_cuts(chk, frames)
+        cuts = [(ctag, lens) for (ctag, lens) in cuts if not (ctag.startswith('two-reads') and rng.random() < 0.5)]
         for (ctag, lens) in cuts:
-            if ctag.startswith('two-reads') and rng.random() < 0.5:
-                continue
             plan.append((parts, flat, ctag, lens))
-    fut = jobs.submit('real', ['(%s, %s)' % (c_parts(parts), c_lens(lens)) for (parts, _f, _c, lens) in plan], 'rx_brief', chunk=36)
+        futs.append(jobs.submit('real%d' % idx, ['(the_stream, %s)' % c_lens(lens) for (_c, lens) in cuts], 'rx_brief', chunk=1000,
+                                defs='Definition the_stream : bytes := %s.\n' % c_parts(parts)))
     done = []
     for (parts, flat, ctag, lens) in plan:
         (_f, ends, _s) = spec_stream(flat)
@@ -1138,7 +1165,10 @@ def run_framing_real(chk, run, jobs, sizes):
         done.append((parts, flat, lens, obs))
     sizes['framing_real_handler'] = len(done)
     yield
-    compare_streams(run, 'framing-real', done, fut.result())
+    results = []
+    for fut in futs:
+        results += fut.result()
+    compare_streams(run, 'framing-real', done, results)
     chk.obligation('correspondence:framing-real-handler', not run.mismatch.get('framing-real'), '; '.join(run.mismatch.get('framing-real', [])[:3]))
 
 
@@ -1263,7 +1293,10 @@ def frame_unjson(lst):
 
 
 def run_all(chk):
+    import multiprocessing
     run = Runner(chk)
+    # worker processes are forked before any thread exists
+    pool = multiprocessing.get_context('fork').Pool(min(8, os.cpu_count() or 2))
     jobs = ModelJobs(chk)
     corpus_codec = []
     corpus_framing = []
@@ -1285,11 +1318,11 @@ def run_all(chk):
     sizes = {}
     # the long-running model evaluations are submitted first; they run in the
     # background while the implementation side of every suite runs here
-    stages = [('framing_long', run_framing_long(chk, run, jobs, sizes)),
+    stages = [('framing_short', run_framing_short(chk, run, jobs, sizes, pool)),
+              ('framing_long', run_framing_long(chk, run, jobs, sizes)),
               ('framing_real', run_framing_real(chk, run, jobs, sizes)),
               ('malformed', run_malformed(chk, run, jobs, sizes)),
-              ('codec', run_codec(chk, run, jobs, corpus_codec, sizes)),
-              ('framing_short', run_framing_short(chk, run, jobs, sizes))]
+              ('codec', run_codec(chk, run, jobs, corpus_codec, sizes))]
     try:
         for (name, gen) in stages:
             next(gen)
@@ -1300,6 +1333,7 @@ def run_all(chk):
             lap('model-wait+compare:' + name)
     finally:
         jobs.pool.shutdown(wait=True)
+        pool.terminate()
     chk.coverage['suite_sizes'] = sizes
     chk.coverage['exhaustive'] = False
     chk.coverage['exhaustive_note'] = 'every one of the 2^(n-1) cuts of each short stream is run on the implementation'
